@@ -23,11 +23,20 @@ def expand(fields):
         out.append(f)
         if f[4] == 'C10' and any(f[1] == k or f[1].startswith(k + ':') for k in SENTINEL_KINDS):
             out.append(tuple(f[:4]) + ('C11',))
+        if f[4] == 'C15' and f[1] == 'raw':
+            # the integer fields of the type 17 correction header (station id, Z count, sequence number, N, health) are "delivered intact"
+            # (C15) and are integers / sequence numbers in the sense of C04
+            out.append(tuple(f[:4]) + ('C04',))
         if f[4] == 'C11':
             # C04 lists time stamps and slot parameters among "every integer ... equals what was transmitted": the position and width
             # of a field with a 'not available' code are obligations of C04 as well
             out.append(tuple(f[:4]) + ('C04',))
-    return out
+    seen, uniq = set(), []
+    for f in out:
+        if tuple(f) not in seen:
+            seen.add(tuple(f))
+            uniq.append(f)
+    return uniq
 
 
 def clause(f):
